@@ -53,6 +53,27 @@ def run(chk):
             dc = rng.choice(dcs)
             texts = ['%08x:0' % dc, '%08x%08x:0' % (rng.choice(rep), dc), '%08x:0' % rng.choice(rep), '%08x%08x:1' % (dc, rng.choice(rep))]
             cases.append('t%d thr %s %d %d %d %s %s' % (len(cases), font, rng.choice((6, 7)), rng.choice((2, 4)), 10, rng.choice(('-', '12')), ' '.join(texts)))
+    # fonts whose name table passes the generic table check but not the name reader's own (cut off inside its string storage, or with a
+    # string offset outside the table): label queries from every thread must neither fetch the table again nor touch shared state
+    import struct as _st
+    from props import fontkit as _K
+    ndir = os.path.join(vlib.BUILD, 'fuzzfonts', 'c09-%s-%d' % (chk.tier, chk.seed)); os.makedirs(ndir, exist_ok=True)
+    for font in ('Padauk.ttf', 'charis_r_gr.ttf'):
+        data = open(os.path.join(vlib.REPO, 'tests/fonts', font), 'rb').read()
+        no, nl = _K.font_tables(data)[b'name']
+        nm = bytearray(data[no:no + nl])
+        cnt, so = _st.unpack('>HH', nm[2:6])
+        for k2, kind in enumerate(('cut', 'offset')):
+            t = bytearray(nm)
+            if kind == 'cut':
+                t = t[:max(18, 6 + 12 * (cnt - 1) - rng.randrange(0, 30))]          # ends inside the record array: the name reader refuses it
+            else:
+                t[4:6] = _st.pack('>H', min(0xFFFF, len(t) + rng.choice((0, 1, 100))))  # string storage at / beyond the end of the table
+            p = os.path.join(ndir, 'name_%s_%s' % (kind, font))
+            open(p, 'wb').write(_K.replace_table(data, b'name', bytes(t)))
+            rep = S.repertoire(vlib.REPO, font)
+            texts = ['%s:0' % ''.join('%08x' % c for c in S.gen_text(rng, rep, 6)) for _ in range(2)]
+            cases.append('t%d thr %s %d %d %d %s %s' % (len(cases), p, rng.choice((6, 7)), 4, 10, '-', ' '.join(texts)))
     _, il, err = vlib.run_pair(None, hexe, cases, timeout=3000, impl_env=TSAN_ENV, shards=8)
     classes, dist = set(), {}
     for c, l in zip(cases, il):
